@@ -682,9 +682,13 @@ Proof.
         + rewrite A, B, C, D. repeat split; reflexivity.
       - apply send_bye_nosess. intros cn0 H. congruence. }
     destruct P as [h1 outs1]. cbn [fst] in HP. destruct HP as (A & B & C & D). cbn [fst].
-    peel. peel. peel.
-    eapply rel_trans with h1; [now apply rel_nosess|].
-    apply rel_put with s; [unfold get_sess; now rewrite A|reflexivity].
+    match goal with |- Rel _ _ (fst (if _ then _ else (?hh, _))) => assert (R5 : Rel xs h hh) end.
+    { peel. peel. peel.
+      eapply rel_trans with h1; [now apply rel_nosess|].
+      apply rel_put with s; [unfold get_sess; now rewrite A|reflexivity]. }
+    destruct (queue_closes s); [|exact R5].
+    match goal with |- context [close_conn ?hh c] => destruct (close_conn hh c) as [h6 o6] eqn:H6 end. cbn [fst].
+    rewrite (fst_eq _ _ _ H6). eapply rel_trans; [exact R5|apply rel_close_conn].
 Qed.
 
 (* ------------------------------------------------------------------ joining *)
